@@ -304,6 +304,8 @@ func (d *Decoder) decodeValue(v any) cadence.Value {
 			return d.decodeEvent(valueJSON)
 		case contractTypeStr:
 			return d.decodeContract(valueJSON)
+		case attachmentTypeStr:
+			return d.decodeAttachment(valueJSON)
 		case inclusiveRangeTypeStr:
 			return d.decodeInclusiveRange(valueJSON)
 		case pathTypeStr:
@@ -864,6 +866,18 @@ func (d *Decoder) decodeCompositeFields(valueJSON any) compositeFields {
 		fieldTypes[i] = compField.field
 	}
 
+	// Attachments are encoded after the declared fields, as field values without a name.
+	// Like in exported values, they have no corresponding field type.
+	for len(fieldTypes) > 0 {
+		last := len(fieldTypes) - 1
+		if _, isAttachment := fieldValues[last].(cadence.Attachment); !isAttachment ||
+			fieldTypes[last].Identifier != "" {
+
+			break
+		}
+		fieldTypes = fieldTypes[:last]
+	}
+
 	return compositeFields{
 		fieldValues: fieldValues,
 		fieldTypes:  fieldTypes,
@@ -979,6 +993,31 @@ func (d *Decoder) decodeContract(valueJSON any) cadence.Contract {
 		d.gauge,
 		comp.location,
 		comp.qualifiedIdentifier,
+		comp.fieldTypes,
+		nil,
+	))
+}
+
+func (d *Decoder) decodeAttachment(valueJSON any) cadence.Attachment {
+	comp := d.decodeComposite(valueJSON)
+
+	attachment, err := cadence.NewMeteredAttachment(
+		d.gauge,
+		len(comp.fieldValues),
+		func() ([]cadence.Value, error) {
+			return comp.fieldValues, nil
+		},
+	)
+
+	if err != nil {
+		panic(errors.NewDefaultUserError("invalid attachment: %w", err))
+	}
+
+	return attachment.WithType(cadence.NewMeteredAttachmentType(
+		d.gauge,
+		comp.location,
+		comp.qualifiedIdentifier,
+		nil,
 		comp.fieldTypes,
 		nil,
 	))
